@@ -319,13 +319,17 @@ public:
   void allocateFrom(FileGraph& graph, const ReadGraphAuxData&) {
     numNodes = graph.size();
     numEdges = graph.sizeEdges();
+    // constructNodesFrom places node id at most 2 * (id + 1) * sizeof(NodeInfo)
+    // + (edges before id) * sizeof(EdgeInfo) bytes into the block and every
+    // node needs up to 2 * sizeof(NodeInfo) plus its edges: (numNodes + 1)
+    // node pairs in total
     if (UseNumaAlloc) {
-      data.allocateLocal(sizeof(NodeInfo) * numNodes * 2 +
+      data.allocateLocal(sizeof(NodeInfo) * (numNodes + 1) * 2 +
                          sizeof(EdgeInfo) * numEdges);
       nodes.allocateLocal(numNodes);
       this->outOfLineAllocateLocal(numNodes);
     } else {
-      data.allocateInterleaved(sizeof(NodeInfo) * numNodes * 2 +
+      data.allocateInterleaved(sizeof(NodeInfo) * (numNodes + 1) * 2 +
                                sizeof(EdgeInfo) * numEdges);
       nodes.allocateInterleaved(numNodes);
       this->outOfLineAllocateInterleaved(numNodes);
